@@ -3,6 +3,7 @@
 package main
 
 import (
+	"sync/atomic"
 	"archive/tar"
 	"bytes"
 	"compress/gzip"
@@ -90,6 +91,18 @@ type instance struct {
 }
 
 var errInjected = errors.New("injected failure")
+
+// injected failures come in two classes, alternating: a plain error, and one that wraps
+// context.DeadlineExceeded (a backend giving up on the caller's deadline): the caller must treat both as
+// "the operation failed", whatever it logs about them
+var injCount int64
+
+func injErr() error {
+	if atomic.AddInt64(&injCount, 1)%2 == 0 {
+		return fmt.Errorf("injected failure (backend timed out): %w", context.DeadlineExceeded)
+	}
+	return injErr()
+}
 var errDead = errors.New("instance is dead")
 
 func (w *world) logf(in *instance, format string, a ...any) {
@@ -394,7 +407,7 @@ func (b simBackend) Upload(ctx context.Context, key string, data []byte, opts *c
 		}
 	}
 	if f != fOK {
-		return errInjected
+		return injErr()
 	}
 	return nil
 }
@@ -420,7 +433,7 @@ func (b simBackend) Fetch(ctx context.Context, key string) ([]byte, error) {
 	ok := f == fOK && exists
 	w.logf(b.in, "> op %d fetch %s - - %s %v", b.in.id, key, f, ok)
 	if f != fOK {
-		return nil, errInjected
+		return nil, injErr()
 	}
 	if !exists {
 		return nil, fmt.Errorf("key %q not found", key)
@@ -445,7 +458,7 @@ func (b simBackend) Discard(ctx context.Context, key string) error {
 	}
 	w.logf(b.in, "> op %d discard %s - - %s %v", b.in.id, key, f, f == fOK)
 	if f != fOK {
-		return errInjected
+		return injErr()
 	}
 	return nil
 }
@@ -484,7 +497,7 @@ func (l simLock) Fetch(ctx context.Context, logID [32]byte) (ctlog.LockedCheckpo
 	}
 	w.logf(l.in, "> op %d lockfetch - - - %s %v", l.in.id, f, f == fOK && exists)
 	if f != fOK {
-		return nil, errInjected
+		return nil, injErr()
 	}
 	if !exists {
 		return nil, ctlog.ErrLogNotFound
@@ -520,7 +533,7 @@ func (l simLock) Replace(ctx context.Context, old ctlog.LockedCheckpoint, new []
 	}
 	w.logf(l.in, "> op %d lockreplace - - %s %s %v", l.in.id, w.canon.checkpoint(new), f, can && f == fOK)
 	if f != fOK {
-		return nil, errInjected
+		return nil, injErr()
 	}
 	if !can {
 		return nil, errors.New("checkpoint changed")
@@ -552,7 +565,7 @@ func (l simLock) Create(ctx context.Context, logID [32]byte, new []byte) error {
 	}
 	w.logf(l.in, "> op %d lockcreate - - %s %s %v", l.in.id, w.canon.checkpoint(new), f, can && f == fOK)
 	if f != fOK {
-		return errInjected
+		return injErr()
 	}
 	if !can {
 		return errors.New("log already exists")
